@@ -8,6 +8,7 @@ import (
 	"sync"
 
 	"github.com/pinealctx/neptune/ds/tree"
+	"github.com/pinealctx/neptune/ds/tree/btree"
 
 	"nvharness/lib/sched"
 )
@@ -88,6 +89,8 @@ func plain(n tree.Node) (kv, bool) {
 		return y, true
 	case gkv:
 		return y.kv, true
+	case btree.Int:
+		return kv{int(y), 0}, true
 	}
 	return kv{}, false
 }
